@@ -130,9 +130,12 @@ def emit(rng, frames, timesteps, order, extra_cols, spurious_z, flags, ws):
         extra_names = [f"c_e{k}" for k in range(extra_cols)]
         out.append("ITEM: ATOMS id type " + " ".join(names[:ncoord] + extra_names) + (" \n" if rng.random() < 0.5 else "\n"))
         ids = np.arange(N)
-        if order == "reversed":
+        o_ = order
+        if order == "mixed":          # every frame has its own line order; the FIRST frame is in id order (a freshly created configuration)
+            o_ = "sorted" if len(extras_all) == 0 else ("random" if len(extras_all) % 2 else "reversed")
+        if o_ == "reversed":
             ids = ids[::-1]
-        elif order == "random":
+        elif o_ == "random":
             ids = rng.permutation(N)
         extras = rng.normal(size=(N, extra_cols)).round(5)
         extras_all.append(extras)
